@@ -216,6 +216,9 @@ func (v *c18Verdict) partSig(part int, t int64, expClass, gotClass, class, tag s
 			nonOwnerFin = nonOwnerFin || so.FinalizedByNonOwner
 		}
 	}
+	if gotClass == "other-committed-value" {
+		gotClass = "older-value"
+	}
 	expPresent := expClass == "committed-put" || expClass == "committed-empty-put"
 	cause, effect := "", ""
 	switch {
